@@ -401,6 +401,13 @@ func frame(b []byte) []byte {
 // answerable query, in query order, each carrying its own query's bytes.
 func runTCPConn(in *engInput, res *vh.Result, rng *rand.Rand, addr string, client, connNo int,
 	idAlloc func() (uint16, bool), round int, counters *tcpCounters) {
+	runStreamConn(in, res, rng, "tcp", func() (net.Conn, error) { return net.DialTimeout("tcp", addr, 3*time.Second) },
+		client, connNo, idAlloc, round, counters)
+}
+
+// runStreamConn is runTCPConn over any framed stream transport (plain TCP, DoT).
+func runStreamConn(in *engInput, res *vh.Result, rng *rand.Rand, proto string, dial func() (net.Conn, error),
+	client, connNo int, idAlloc func() (uint16, bool), round int, counters *tcpCounters) {
 	var sc tcpScript
 	n := 1 + rng.Intn(in.TCPFrames)
 	for i := 0; i < n; i++ {
@@ -442,10 +449,10 @@ func runTCPConn(in *engInput, res *vh.Result, rng *rand.Rand, addr string, clien
 		for k, v := range extra {
 			rep[k] = v
 		}
-		res.Violate("tcp/"+key, fmt.Sprintf("[%s] TCP client %d conn %d: %s", in.Name, client, connNo, what), rep)
+		res.Violate(proto+"/"+key, fmt.Sprintf("[%s] %s client %d conn %d: %s", in.Name, strings.ToUpper(proto), client, connNo, what), rep)
 	}
 
-	conn, err := net.DialTimeout("tcp", addr, 3*time.Second)
+	conn, err := dial()
 	if err != nil {
 		counters.dialFail.Add(1)
 		return
@@ -482,7 +489,7 @@ func runTCPConn(in *engInput, res *vh.Result, rng *rand.Rand, addr string, clien
 
 	got := 0
 	cut := false
-	ob := tcpObs{Ev: "conn", Conn: fmt.Sprintf("%s/c%d/n%d", in.Name, client, connNo), Whole: true,
+	ob := tcpObs{Ev: "conn", Conn: fmt.Sprintf("%s/%s/c%d/n%d", in.Name, proto, client, connNo), Whole: true,
 		Ending: sc.ending, Kinds: []string{}, IDs: []int{}, Recv: []int{}}
 	for _, q := range sc.queries {
 		ob.Kinds = append(ob.Kinds, modelKind(q.kind))
@@ -574,13 +581,13 @@ func runTCPConn(in *engInput, res *vh.Result, rng *rand.Rand, addr string, clien
 	} else if cut {
 		counters.cut.Add(1)
 	}
-	res.Case("tcp/" + sc.ending)
+	res.Case(proto + "/" + sc.ending)
 }
 
 type tcpCounters struct {
 	conns, dialFail, frames, answered, expected, complete, cut, stalled, rcFails atomic.Int64
-	mu  sync.Mutex
-	obs []tcpObs
+	mu                                                                           sync.Mutex
+	obs                                                                          []tcpObs
 }
 
 // tcpObs is what one connection's client saw, for Trace_TcpConn.tla.
@@ -625,6 +632,7 @@ func TestEngineLoad(t *testing.T) {
 		opts.RetireTX = true
 	}
 	sink := newTraceSink(in.Perturb, seed, in.TraceLimit)
+	sink.path = in.TraceOut
 	server.SetVerifUDPTrace(sink.fn)
 	defer server.SetVerifUDPTrace(nil)
 
@@ -634,6 +642,9 @@ func TestEngineLoad(t *testing.T) {
 		t.Fatalf("rig: %v", err)
 	}
 	st0 := server.VerifC10Snapshot(rg.srv)
+	sink.mu.Lock()
+	sink.hdr = map[string]any{"cfg_name": in.Name, "cfg_mode": in.Mode, "cfg_cap": st0.UDPSlabCap, "cfg_takers": st0.UDPReaders + 2}
+	sink.mu.Unlock()
 	res.Sample(map[string]any{"config": in.Name, "udp": rg.udp, "tcp": rg.tcp, "slabCap": st0.UDPSlabCap,
 		"batched": st0.UDPBatched, "tcpSmall": st0.TCPSmallCap, "tcpLarge": st0.TCPLargeCap})
 	if in.Mode != "portable" && !st0.UDPBatched {
@@ -856,7 +867,7 @@ func TestEngineLoad(t *testing.T) {
 	nl, err := sink.write(in.TraceOut, map[string]any{
 		"cfg_name": in.Name, "cfg_mode": in.Mode, "cfg_cap": st.UDPSlabCap,
 		"cfg_takers": st.UDPReaders + extraReaders,
-		"quiesced": quiesced, "ls": st.UDPLeased, "if": st.UDPInFlight, "idle": st.UDPIdle})
+		"quiesced":   quiesced, "ls": st.UDPLeased, "if": st.UDPInFlight, "idle": st.UDPIdle})
 	if err != nil {
 		t.Fatalf("trace: %v", err)
 	}
